@@ -11,6 +11,7 @@ Sections `h=kube`:
 -/
 import GoZero.Base.Trace
 import GoZero.C13.Spec
+import GoZero.C13.Multi
 namespace GoZero.C13
 
 open GoZero
@@ -74,6 +75,7 @@ structure St where
   pub   : Option String := none   -- resolver: last published
   dead  : Bool := false
   late  : Option Container := none -- model of a subscriber that joined the watch later (ordinary)
+  tag   : String := ""            -- multi-key sections: ` service=<i>` (appended to the monitor messages)
 
 def coverPut (st : St) (k v : Nat) : String :=
   match st.reg.get k with
@@ -117,7 +119,7 @@ def runSubLine (st : St) (r : Report) (sec : Nat) (l : Line) : St × Report := I
       let adds := log.filterMap fun | .add k v => some (k, v) | _ => none
       let rems := log.filterMap fun | .del k => some k | _ => none
       pure [.reload kvs adds rems]
-    | ["cancel"] | ["closech"] => some []
+    | ["cancel"] | ["closech"] | ["idle"] => some []
     | _ => none
   let some evs := evs? | return (st, r.mismatch sec l.idx "bad-op" (joinSp l.op))
   r := { r with ops := r.ops + 1 }
@@ -174,15 +176,15 @@ def runSubLine (st : St) (r : Report) (sec : Nat) (l : Line) : St × Report := I
   let cnt' := expectLog.foldl Spec.exApplyL st.cnt
   let want := showNats (Spec.viewList (if st.excl then cnt' else reg'))
   if want ≠ implValues then
-    r := r.violation sec l.idx s!"view-differs-from-registry spec=[{want}] impl=[{implValues}] excl={st.excl} op=[{joinSp l.op}] registry=[{showMapping reg'}]"
+    r := r.violation sec l.idx s!"view-differs-from-registry spec=[{want}] impl=[{implValues}] excl={st.excl} op=[{joinSp l.op}] registry=[{showMapping reg'}]{st.tag}"
   if st.excl then
     r := r.addCover "exclusive-line"
     if cnt'.length < reg'.length then r := r.addCover "exclusive-displaced-key-present"
   -- listeners: called after every change, and the last call sees the final view
   if implValues ≠ st.prev ∧ (implNoted = "0" ∨ implNoted.contains '/') then
-    r := r.violation sec l.idx s!"view-changed-without-notifying-every-listener before=[{st.prev}] after=[{implValues}] notified={implNoted}"
+    r := r.violation sec l.idx s!"view-changed-without-notifying-every-listener before=[{st.prev}] after=[{implValues}] notified={implNoted}{st.tag}"
   if implLast ≠ "none" ∧ implLast ≠ implValues then
-    r := r.violation sec l.idx s!"listener-saw-stale-view last=[{implLast}] values=[{implValues}]"
+    r := r.violation sec l.idx s!"listener-saw-stale-view last=[{implLast}] values=[{implValues}]{st.tag}"
   if implValues ≠ st.prev then r := r.addCover "view-changed" else r := r.addCover "view-unchanged"
   -- resolver harness: what was published
   let mut pub := st.pub
@@ -491,6 +493,20 @@ def PSt.doRevoke (st : PSt) (e : PEnt) : PSt × List Ev :=
   if e.sibling then ({ st' with xstore := storeRevoke st'.xstore e.pub.lease }, [])
   else ({ st' with store := storeRevoke st'.store e.pub.lease }, revokeEvents st'.store e.pub.lease)
 
+/-- the attempts of one operation (`doKeepAlive`, or the single attempt of `KeepAlive`) with the outcomes etcd gave -/
+def PSt.doAttempts (st : PSt) (e : PEnt) (as : List Attempt) : PSt × List Ev :=
+  let base := if e.sibling then st.xstore else st.store
+  let res := doKeepAlive true e.pub base as
+  let st' := st.setPub { e with pub := res.1, running := res.2.2 }
+  if e.sibling then ({ st' with xstore := res.2.1 }, [])
+  else ({ st' with store := res.2.1 }, attemptEvents e.pub as)
+
+/-- `!<kind>:<n>` -/
+def parseFault (t : String) : Option (String × Nat) :=
+  match (String.ofList (t.toList.drop 1)).splitOn ":" with
+  | [k, n] => if ["grant", "put", "ka", "revoke"].contains k then n.toNat?.map fun n => (k, n) else none
+  | _ => none
+
 def evTok : Ev → String
   | .put k v => s!"p:{k}:{v}"
   | .del k => s!"d:{k}"
@@ -507,16 +523,38 @@ def keysOfVals (s : String) : List Nat :=
     | [_, ks] => ((ks.replace "[" "").replace "]" "").splitOn "." |>.filterMap (·.toNat?)
     | _ => []
 
-def runPubLine (st0 : PSt) (r0 : Report) (sec : Nat) (l : Line) : PSt × Report := Id.run do
+def runPubLine (st0 : PSt) (r0 : Report) (sec : Nat) (l0 : Line) : PSt × Report := Id.run do
   let mut r := r0
   let mut st := st0
+  if (kv? l0.obs "dead").isSome then return (st0, r.addCover "line-after-a-publisher-gave-up")
+  -- fault injection: `!<kind>:<n>` as the last token of the operation
+  let faultTok := (l0.op.getLast?).filter (·.startsWith "!")
+  let fault := faultTok.bind parseFault
+  if faultTok.isSome && fault.isNone then return (st0, r.mismatch sec l0.idx "bad-fault" (joinSp l0.op))
+  let l : Line := if faultTok.isSome then { l0 with op := l0.op.dropLast } else l0
   let leases := (splitComma (kvStr l.obs "leases" "")).filterMap parseLease
   let leaseOf (p : Nat) : Option Nat := (leases.find? (·.1 = p)).map (·.2.1)
   let mut evs : List Ev := []
   let mut bad := false
   let kind := l.op.headD "?"
+  match fault with
+  | some (fk, fn) =>
+    r := r.addCover s!"fault-{fk}-during-{kind}"
+    if fn ≥ 2 then r := r.addCover "fault-several-failed-attempts-in-a-row"
+    let okKind := if fk == "revoke" then (kind == "pause" || kind == "stop") else (kind == "pub" || kind == "resume" || kind == "kaclose")
+    if !okKind || (kind ≠ "pub" && l.op.length ≠ 2) then bad := true
+  | none => pure ()
+  if (kv? l.obs "gaveup").isSome then
+    r := r.violation sec l.idx s!"publisher-gave-up-re-registering-after-a-failed-attempt op=[{joinSp l0.op}] store=[{kvStr l.obs "store" "?"}] (every armed failure happened, no further attempt followed: doKeepAlive must try again at every tick until it succeeds)"
   match l.op with
-  | ["sub"] | ["rl"] | ["join"] => pure ()
+  | ["sub"] | ["rl"] | ["join"] => if fault.isSome then bad := true
+  | ["expire"] =>
+    -- the leases of the publishers whose keep-alive goroutine runs are renewed, every other lease expires
+    let alive := (st.pubs.filter (·.running)).map (·.pub.lease)
+    let gone := (sortByFst (st.store.filter fun e => !alive.contains e.2.2)).map (·.1)
+    evs := gone.map .del
+    if !gone.isEmpty then r := r.addCover "lease-expiry-removes-an-orphan-key" else r := r.addCover "lease-expiry-nothing-to-remove"
+    st := { st with store := storeExpire st.store alive, xstore := storeExpire st.xstore alive }
   | "pub" :: args | "pubx" :: args =>
     let k := kind
     match args with
@@ -525,9 +563,22 @@ def runPubLine (st0 : PSt) (r0 : Report) (sec : Nat) (l : Line) : PSt × Report 
      | some p, some id, some v =>
       match leaseOf p, st.pubs.find? (·.p = p) with
       | some lease, none =>
-        let (st', e') := st.doRegister { p := p, pub := { id := id, value := v }, sibling := k == "pubx", running := false } lease
-        st := st'
-        evs := evs ++ e'
+        let e0 : PEnt := { p := p, pub := { id := id, value := v }, sibling := k == "pubx", running := false }
+        match fault with
+        | none =>
+          let (st', e') := st.doRegister e0 lease
+          st := st'
+          evs := evs ++ e'
+          if (kv? l.obs "err").isSome then
+            r := r.violation sec l.idx s!"KeepAlive-failed-although-no-etcd-call-failed op=[{joinSp l0.op}] (the service is not registered)"
+        | some (fk, _) =>
+          -- KeepAlive(): one attempt, the error is returned, no keep-alive goroutine
+          let a : Attempt := if fk == "grant" then .grantErr else if fk == "put" then .putErr lease else .kaErr lease
+          let (st', e') := st.doAttempts e0 [a]
+          st := st'
+          evs := evs ++ e'
+          if (kv? l.obs "err").isNone then r := r.mismatch sec l.idx "KeepAlive()=error" "err=<absent>"
+          r := r.addCover "KeepAlive-returns-the-error"
         r := r.addCover (if id > 0 then "publisher-with-fixed-id" else "publisher-keyed-by-lease")
         if k == "pubx" then r := r.addCover "publisher-of-the-sibling-service"
         if !st0.subscribed then r := r.addCover "publisher-registered-before-the-subscriber"
@@ -541,22 +592,37 @@ def runPubLine (st0 : PSt) (r0 : Report) (sec : Nat) (l : Line) : PSt × Report 
       | none => bad := true
       | some e =>
         if k == "pause" || k == "stop" || k == "kaclose" then
-          let (st', e') := st.doRevoke e
-          st := st'
-          evs := evs ++ e'
+          if fault.isSome && k != "kaclose" then
+            -- the revocation failed (only logged): the key stays in etcd until its lease expires
+            st := st.setPub { e with running := false }
+            if e.running then r := r.addCover "revoke-failed-key-left-to-the-lease-ttl"
+          else if k == "kaclose" || e.running then
+            let (st', e') := st.doRevoke e
+            st := st'
+            evs := evs ++ e'
           if k == "stop" && !e.running then r := r.addCover "stop-of-a-paused-publisher"
         if k == "resume" || k == "kaclose" then
           match leaseOf e.p, st.pubs.find? (·.p = e.p) with
           | some lease, some e1 =>
-            let (st', e') := st.doRegister e1 lease
-            st := st'
-            evs := evs ++ e'
+            match fault with
+            | none =>
+              let (st', e') := st.doRegister e1 lease
+              st := st'
+              evs := evs ++ e'
+            | some (fk, fn) =>
+              let fg := if fk == "grant" then fn else 0
+              let fp := if fk == "put" then fn else 0
+              let fka := if fk == "ka" then fn else 0
+              let (st', e') := st.doAttempts e1 (attemptsFor fg fp fka (lease - fp - fka))
+              st := st'
+              evs := evs ++ e'
+              r := r.addCover "re-registration-succeeds-after-failed-attempts"
             if e.pub.id > 0 then r := r.addCover "fixed-id-publisher-registers-again-under-the-same-key"
             else r := r.addCover "lease-keyed-publisher-registers-again-under-a-new-key"
           | _, _ => bad := true
     if ps.length > 1 then r := r.addCover s!"{k}-of-several-publishers"
   | [] => bad := true
-  if bad then return (st0, r.mismatch sec l.idx "bad-op" (joinSp (l.op ++ ["=>"] ++ l.obs)))
+  if bad then return (st0, r.mismatch sec l.idx "bad-op" (joinSp (l0.op ++ ["=>"] ++ l.obs)))
   r := r.addCover s!"pub-{kind}"
   -- the publishers' bookkeeping: p.lease / p.fullKey, and what etcd holds
   for e in st.pubs do
@@ -568,7 +634,7 @@ def runPubLine (st0 : PSt) (r0 : Report) (sec : Nat) (l : Line) : PSt × Report 
   if showStore st.store ≠ kvStr l.obs "store" "?" then r := r.mismatch sec l.idx s!"store={showStore st.store}" s!"store={kvStr l.obs "store" "?"}"
   if showStore st.xstore ≠ kvStr l.obs "xstore" "?" then r := r.mismatch sec l.idx s!"xstore={showStore st.xstore}" s!"xstore={kvStr l.obs "xstore" "?"}"
   if (kv? l.obs "timeout").isSome then
-    r := r.violation sec l.idx s!"publisher-did-not-register-or-revoke op=[{joinSp l.op}] store=[{kvStr l.obs "store" "?"}]"
+    r := r.violation sec l.idx s!"publisher-did-not-register-or-revoke op=[{joinSp l0.op}] store=[{kvStr l.obs "store" "?"}]"
   if (st.pubs.filter fun e => !e.sibling && e.running).length ≥ 2 then r := r.addCover "several-live-publishers"
   if (st.pubs.any fun e => e.sibling && e.running) then r := r.addCover "sibling-service-registered"
   if !st.subscribed && kind ≠ "sub" then
@@ -593,16 +659,20 @@ def runPubLine (st0 : PSt) (r0 : Report) (sec : Nat) (l : Line) : PSt × Report 
       -- several publishers act concurrently in one operation: etcd's order of their puts / revokes is observed
       let obsEvs := ((splitComma (kvStr l.obs "log" "")).filterMap parseLogTok).map levToEv
       let use := if l.op.length > 2 && obsEvs.length == evs.length && evs.all (fun e => obsEvs.any (evTok · == evTok e)) then obsEvs else evs
-      { l with op := "batch" :: use.map evTok }
+      if use.isEmpty then { l with op := ["idle"] } else { l with op := "batch" :: use.map evTok }
   if kind == "sub" && !st.store.isEmpty then r := r.addCover "subscriber-loads-registered-publishers"
   let (sub', r') := runSubLine st.sub r sec line
   r := r'
-  -- the property at the publisher level: Values() is the set of values of the live publishers of this service
-  if !st.sub.excl then
+  -- the property at the publisher level: Values() is the set of values of the live publishers of this service —
+  -- unless a failed call left a key behind that nobody renews (it lives until its lease expires: `expire`)
+  let alive := (st.pubs.filter (·.running)).map (·.pub.lease)
+  let orphans := st.store.filter fun e => !alive.contains e.2.2
+  if !orphans.isEmpty then r := r.addCover "orphan-key-awaiting-lease-expiry"
+  if !st.sub.excl && orphans.isEmpty then
     let want := showNats (Spec.canonSet ((st.pubs.filter fun e => !e.sibling && e.running).map (·.pub.value)))
     let implValues := kvStr l.obs "values" "?"
     if want ≠ implValues then
-      r := r.violation sec l.idx s!"view-differs-from-live-publishers spec=[{want}] impl=[{implValues}] op=[{joinSp l.op}] store=[{kvStr l.obs "store" "?"}]"
+      r := r.violation sec l.idx s!"view-differs-from-live-publishers spec=[{want}] impl=[{implValues}] op=[{joinSp l0.op}] store=[{kvStr l.obs "store" "?"}]"
   return ({ st with sub := sub', subscribed := true }, r)
 
 def runPubSection (r : Report) (s : Section) : Report := Id.run do
@@ -615,11 +685,119 @@ def runPubSection (r : Report) (s : Section) : Report := Id.run do
     r := r'
   return r
 
+/-! multi-key sections (`h=multi n=<n> excl=<bits> exact=<0/1>`): several watched keys on ONE cluster
+  put <s> <k> <v> | del <s> <k> | batch <s> … | reloadc <s> <k>:<v>… | connreload <k>:<v>… / <k>:<v>… / … |
+  close <s> | reopen <s> <k>:<v>…
+  => <s>.log= <s>.vals= <s>.map= <s>.values= <s>.notified= <s>.last=  [x.values=] [rewatched=<s,…>] [lost=1]
+Every service is the model / spec / monitor of the single-key sections (`runSubLine`); a reconnect (`connreload`) is a
+reload of EVERY watched key (`MultiCluster.reconnect`, theorem `multi_view_equals_registry`). -/
+
+structure MSt where
+  svcs : List (Nat × St) := []      -- the open services
+
+/-- the tokens `<i>.k=v` of service `i`, prefix stripped -/
+def svcObs (obs : List String) (i : Nat) : List String :=
+  obs.filterMap fun t => if t.startsWith s!"{i}." then some (String.ofList (t.toList.drop (s!"{i}.".length))) else none
+
+def splitSlash : List String → List (List String)
+  | [] => [[]]
+  | t :: ts =>
+    match splitSlash ts with
+    | [] => [[t]]
+    | p :: ps => if t = "/" then [] :: p :: ps else (t :: p) :: ps
+
+def runMultiSection (r : Report) (s : Section) : Report := Id.run do
+  let n := kvNat s.cfg "n" 2
+  let bits := (kvStr s.cfg "excl" "").toList
+  let exact := kvNat s.cfg "exact" 0 = 1
+  let mk (i : Nat) : St :=
+    let excl := bits.getD i '0' == '1'
+    { excl := excl, cl := { cont := Container.new excl }, tag := s!" service={i} of {n} on one cluster" }
+  let mut st : MSt := { svcs := (List.range n).map fun i => (i, mk i) }
+  let mut r := r
+  let mut dead := false
+  for l in s.lines do
+    if dead then
+      r := r.addCover "line-after-deadlock"
+      continue
+    if (kv? l.obs "dead").isSome then
+      dead := true
+      r := r.violation s.idx l.idx s!"reload-deadlocks-while-a-watch-response-is-handled op=[{joinSp l.op}] (several watched keys)"
+      continue
+    -- the operation as seen by every service
+    let parsed : Option (String × Option Nat × (Nat → List String)) :=
+      match l.op with
+      | ["put", sv, k, v] => sv.toNat?.map fun t => ("put", some t, fun i => if i = t then ["put", k, v] else ["idle"])
+      | ["del", sv, k] => sv.toNat?.map fun t => ("del", some t, fun i => if i = t then ["del", k] else ["idle"])
+      | "batch" :: sv :: ts => sv.toNat?.map fun t => ("batch", some t, fun i => if i = t then "batch" :: ts else ["idle"])
+      | "reloadc" :: sv :: ts => sv.toNat?.map fun t => ("reloadc", some t, fun i => if i = t then "reloadc" :: ts else ["idle"])
+      | "connreload" :: ts =>
+        let parts := splitSlash ts
+        if parts.length = n then some ("connreload", none, fun i => "connreload" :: parts.getD i []) else none
+      | ["close", sv] => sv.toNat?.map fun t => ("close", some t, fun _ => ["idle"])
+      | "reopen" :: sv :: ts => sv.toNat?.map fun t => ("reopen", some t, fun i => if i = t then "reload" :: ts else ["idle"])
+      | _ => none
+    let some (kind, target, opOf) := parsed | r := r.mismatch s.idx l.idx "bad-op" (joinSp l.op)
+    let isOpen (i : Nat) : Bool := st.svcs.any (·.1 = i)
+    match target with
+    | some t =>
+      if t ≥ n ∨ (kind = "reopen" ∧ isOpen t) ∨ (kind ≠ "reopen" ∧ !isOpen t) then
+        r := r.mismatch s.idx l.idx "bad-op" (joinSp (l.op ++ ["=>"] ++ l.obs))
+        continue
+    | none => pure ()
+    r := r.addCover s!"multi-{kind}"
+    if kind = "close" then
+      st := { svcs := st.svcs.filter (·.1 ≠ target.getD n) }
+      r := r.addCover "multi-last-listener-of-a-key-leaves"
+    if kind = "reopen" then
+      st := { svcs := sortByFst (st.svcs ++ [(target.getD 0, mk (target.getD 0))]) }
+      r := r.addCover "multi-new-watch-on-a-key-that-was-unmonitored"
+    if st.svcs.length ≥ 2 then r := r.addCover "multi-several-keys-watched" else r := r.addCover "multi-one-key-left"
+    if (kv? l.obs "lost").isSome then r := r.addCover "multi-event-for-a-key-nobody-watches-any-more"
+    -- a reconnect must load and watch every watched key again
+    if kind = "connreload" then
+      let rew := splitComma (kvStr l.obs "rewatched" "")
+      let missing := (st.svcs.map fun p => toString p.1).filter (fun t => !rew.contains t) ++ (if exact && !rew.contains "x" then ["x"] else [])
+      if st.svcs.length ≥ 2 then r := r.addCover "multi-reconnect-with-several-keys"
+      if !missing.isEmpty then
+        r := r.violation s.idx l.idx s!"reconnect-did-not-reload-and-rewatch-every-key missing=[{",".intercalate missing}] rewatched=[{kvStr l.obs "rewatched" ""}] op=[{joinSp l.op}] (later events of these keys are never delivered)"
+    let mut svcs' : List (Nat × St) := []
+    for (i, sti) in st.svcs do
+      let obsI := svcObs l.obs i
+      let opI := opOf i
+      let line : Line :=
+        if kind = "reopen" ∧ target = some i then
+          -- the new subscriber loaded the snapshot inside NewSubscriber: the order handleChanges ranged in is read off vals=
+          let kvs := (parsePairs (opI.drop 1)).getD []
+          let new := ofKVs kvs
+          let order := keysOfVals (kvStr obsI "vals" "")
+          let adds := new.filter (fun kv => !order.contains kv.1) ++ order.filterMap (fun k => new.find? (·.1 = k))
+          { l with op := opI, obs := [s!"log={showLog (adds.map fun kv => LEv.add kv.1 kv.2)}", s!"notified={adds.length}"]
+                          ++ obsI.filter (fun t => !(t.startsWith "log=") && !(t.startsWith "notified=")) }
+        else { l with op := opI, obs := obsI }
+      let (sti', r') := runSubLine sti r s.idx line
+      r := r'
+      svcs' := svcs' ++ [(i, sti')]
+    st := { svcs := svcs' }
+    -- the exact-match subscriber (WithExactMatch on key 0 of service 0): the value of that key, if registered
+    if exact then
+      match st.svcs.find? (·.1 = 0) with
+      | some (_, st0) =>
+        let want := match st0.reg.get 0 with | some v => toString v | none => ""
+        let impl := kvStr l.obs "x.values" "?"
+        r := r.addCover (if want = "" then "exact-key-absent" else "exact-key-registered")
+        if want ≠ impl then
+          r := r.violation s.idx l.idx s!"exact-match-view-differs-from-registry spec=[{want}] impl=[{impl}] op=[{joinSp l.op}] registry=[{showMapping st0.reg}]"
+      | none => pure ()
+    else if (kv? l.obs "x.values").isSome then r := r.mismatch s.idx l.idx "x.values=<absent>" "x.values=<present>"
+  return r
+
 def runSection (r : Report) (s : Section) : Report := Id.run do
   if kvStr s.cfg "h" "" = "pub" then return runPubSection r s
   if kvStr s.cfg "h" "" = "kube" then return runKubeSection r s
   if kvStr s.cfg "h" "" = "conc" then return runConcSection r s
   if kvStr s.cfg "h" "" = "build" then return runBuildSection r s
+  if kvStr s.cfg "h" "" = "multi" then return runMultiSection r s
   let excl := kvNat s.cfg "excl" 0 = 1
   let mut st : St := { excl := excl, cl := { cont := Container.new excl } }
   let mut r := r
